@@ -221,7 +221,34 @@ pub fn realistic_unknown(src: &mut Src) -> (Value, Value) {
 
 /// One structure-level mutation of a parameter map. Returns a label describing it, or None
 /// if it was not applicable. `budget` is the maximal encoded size aimed at.
+/// number of nodes, counted up to `limit`
+pub fn node_count(v: &Value, limit: usize) -> usize {
+    fn go(v: &Value, n: &mut usize, limit: usize) {
+        *n += 1;
+        if *n >= limit {
+            return;
+        }
+        match v {
+            Value::Array(a) => a.iter().for_each(|x| go(x, n, limit)),
+            Value::Map(m) => m.iter().for_each(|(k, x)| {
+                go(k, n, limit);
+                go(x, n, limit)
+            }),
+            Value::Tag(_, x) => go(x, n, limit),
+            _ => {}
+        }
+    }
+    let mut n = 0;
+    go(v, &mut n, limit);
+    n
+}
+
 pub fn mutate_tree(v: &mut Value, src: &mut Src, budget: usize) -> Option<String> {
+    // keep the harness itself cheap: once a previous mutation has made the tree huge (deep
+    // nesting, grown lists) further structural mutation is skipped
+    if node_count(v, 20_000) >= 20_000 {
+        return None;
+    }
     let nodes = walk(v);
     let p = nodes[src.below(nodes.len())].clone();
     let op = src.below(9);
@@ -245,7 +272,10 @@ pub fn mutate_tree(v: &mut Value, src: &mut Src, budget: usize) -> Option<String
                 }
                 Value::Array(a) => {
                     let n = *src.pick(&[3usize, 11, 17, 64, 300]);
-                    let filler = a.last().cloned().unwrap_or(Value::Uint(0));
+                    let filler = match a.last() {
+                        Some(x) if node_count(x, 64) < 64 => x.clone(),
+                        _ => Value::Uint(0),
+                    };
                     while a.len() < n {
                         a.push(filler.clone());
                     }
